@@ -43,7 +43,7 @@ Definition balance_in_range (x : N) : Prop :=
 
 Lemma wf_balance x : wf c_balance x = true -> balance_in_range x.
 Proof.
-  unfold c_balance. rewrite wf_refine. intros H. apply andb_true_iff in H as [H1 H2].
+  unfold c_balance. cbn [c_pair c_dep c_refine c_vec wf]. intros H. apply andb_true_iff in H as [H1 H2].
   cbn [c_u64le c_uint wf] in H1. apply N.ltb_lt in H1. rewrite pow256_8 in H1.
   unfold balance_ok in H2. unfold balance_in_range, i64_of.
   apply orb_true_iff in H2 as [H2|H2].
@@ -76,8 +76,8 @@ Proof.
   - intros [n| | | |] P; try (vm_compute; reflexivity).
     unfold txv_ok in P. apply andb_true_iff in P as [P1 _].
     unfold hdr_from, hdr_to, hdr_of. cbn [fst snd]. rewrite P1. reflexivity.
-  - intros [h g] W. unfold c_hdr_raw in W. rewrite wf_refine in W.
-    apply andb_true_iff in W as [W1 W2]. rewrite wf_dep in W1. cbn [fst snd] in W1, W2.
+  - intros [h g] W. unfold c_hdr_raw in W. cbn [c_pair c_dep c_refine c_vec wf] in W.
+    apply andb_true_iff in W as [W1 W2]. cbn [c_pair c_dep c_refine c_vec wf] in W1. cbn [fst snd] in W1, W2.
     apply andb_true_iff in W1 as [_ Wg]. apply c_opt_wf in Wg.
     unfold hdr_from. cbn [fst snd].
     destruct g as [g|].
@@ -247,11 +247,11 @@ Section TxProofs.
   Lemma wf_transparent tp :
     wf c_transparent tp = true -> Forall amount_in_range (txout_values tp).
   Proof.
-    unfold c_transparent. rewrite wf_pair. intros H. apply andb_true_iff in H as [_ H].
-    rewrite wf_vec in H. apply andb_true_iff in H as [_ H]. unfold txout_values.
+    unfold c_transparent. cbn [c_pair c_dep c_refine c_vec wf]. intros H. apply andb_true_iff in H as [_ H].
+    cbn [c_pair c_dep c_refine c_vec wf] in H. apply andb_true_iff in H as [_ H]. unfold txout_values.
     induction (snd tp) as [|o l IH]; [constructor|].
     cbn [forallb] in H. apply andb_true_iff in H as [H1 H2]. cbn [map]. constructor; [|auto].
-    unfold c_txout in H1. rewrite wf_pair in H1. apply andb_true_iff in H1 as [H1 _].
+    unfold c_txout in H1. cbn [c_pair c_dep c_refine c_vec wf] in H1. apply andb_true_iff in H1 as [H1 _].
     apply wf_amount. exact H1.
   Qed.
 End TxProofs.
@@ -259,16 +259,16 @@ End TxProofs.
 (** Amount fields of a transaction value, by position. *)
 Definition opt_list {A} (o : option A) : list A := match o with Some a => [a] | None => [] end.
 
-Definition js_amounts (js : ty (c_js true)) : list N := [fst js; fst (snd js)].
-Definition sprout_amounts (s : ty (c_sprout true)) : list N := flat_map js_amounts (fst s).
-Definition sap5_balances (s : ty (c_sapling5 novalid)) : list N := opt_list (fst (snd s)).
-Definition orch_balances (o : ty (c_orchard novalid None)) : list N :=
+Definition js_amounts (js : js_t) : list N := [fst js; fst (snd js)].
+Definition sprout_amounts (s : sprout_t) : list N := flat_map js_amounts (fst s).
+Definition sap5_balances (s : sapling5_t) : list N := opt_list (fst (snd s)).
+Definition orch_balances (o : orchard_t) : list N :=
   match snd o with Some r => [fst (snd r)] | None => [] end.
 
-Definition legacy_unsigned (x : ty (c_legacy novalid V4)) : list N :=
+Definition legacy_unsigned (x : legacy_t) : list N :=
   txout_values (fst x)
   ++ match fst (snd (snd (snd (snd x)))) with Some s => sprout_amounts s | None => [] end.
-Definition legacy_signed (x : ty (c_legacy novalid V4)) : list N :=
+Definition legacy_signed (x : legacy_t) : list N :=
   match fst (snd (snd (snd x))) with Some s => [fst s] | None => [] end.
 
 Definition tx_unsigned_amounts (t : tx_t) : list N :=
@@ -289,44 +289,44 @@ Definition tx_signed_amounts (t : tx_t) : list N :=
 Section AmountProofs.
   Variable valid : N -> bytes -> bool.
 
-  Lemma wf_sprout g (s : ty (c_sprout g)) :
+  Lemma wf_sprout g (s : sprout_t) :
     wf (c_sprout g) s = true -> Forall amount_in_range (sprout_amounts s).
   Proof.
-    unfold c_sprout. rewrite wf_dep. intros H. apply andb_true_iff in H as [H _].
-    rewrite wf_vec in H. apply andb_true_iff in H as [_ H]. unfold sprout_amounts.
+    unfold c_sprout. cbn [c_pair c_dep c_refine c_vec wf]. intros H. apply andb_true_iff in H as [H _].
+    cbn [c_pair c_dep c_refine c_vec wf] in H. apply andb_true_iff in H as [_ H]. unfold sprout_amounts.
     induction (fst s) as [|j l IH]; [constructor|].
     cbn [forallb] in H. apply andb_true_iff in H as [H1 H2]. cbn [flat_map].
-    unfold c_js in H1. rewrite !wf_pair in H1.
+    unfold c_js in H1. cbn [c_pair c_dep c_refine c_vec wf] in H1.
     apply andb_true_iff in H1 as [Ha H1]. apply andb_true_iff in H1 as [Hb _].
     unfold js_amounts. cbn [app]. constructor; [apply wf_amount; exact Ha|].
     constructor; [apply wf_amount; exact Hb | auto].
   Qed.
 
-  Lemma wf_sap5 (s : ty (c_sapling5 valid)) :
+  Lemma wf_sap5 (s : sapling5_t) :
     wf (c_sapling5 valid) s = true -> Forall balance_in_range (sap5_balances s).
   Proof.
-    unfold c_sapling5. rewrite wf_dep. intros H. apply andb_true_iff in H as [_ H]. cbv zeta in H.
-    rewrite wf_pair in H. apply andb_true_iff in H as [H _]. unfold sap5_balances.
+    unfold c_sapling5. cbn [c_pair c_dep c_refine c_vec wf]. intros H. apply andb_true_iff in H as [_ H]. cbv zeta in H.
+    cbn [c_pair c_dep c_refine c_vec wf] in H. apply andb_true_iff in H as [H _]. unfold sap5_balances.
     destruct (fst (snd s)) as [vb|]; [|constructor]. apply c_opt_wf in H as [_ H].
     constructor; [apply wf_balance; exact H | constructor].
   Qed.
 
-  Lemma wf_orch bv (o : ty (c_orchard valid bv)) :
+  Lemma wf_orch bv (o : orchard_t) :
     wf (c_orchard valid bv) o = true -> Forall balance_in_range (orch_balances o).
   Proof.
-    unfold c_orchard. rewrite wf_dep. intros H. apply andb_true_iff in H as [_ H].
+    unfold c_orchard. cbn [c_pair c_dep c_refine c_vec wf]. intros H. apply andb_true_iff in H as [_ H].
     unfold orch_balances. destruct (snd o) as [r|]; [|constructor].
     apply c_opt_wf in H as [_ H]. destruct bv as [v|]; [|discriminate].
-    unfold c_orchard_rest in H. rewrite !wf_pair in H.
+    unfold c_orchard_rest in H. cbn [c_pair c_dep c_refine c_vec wf] in H.
     apply andb_true_iff in H as [_ H]. apply andb_true_iff in H as [H _].
     constructor; [apply wf_balance; exact H | constructor].
   Qed.
 
-  Lemma wf_legacy v (x : ty (c_legacy valid v)) :
+  Lemma wf_legacy v (x : legacy_t) :
     wf (c_legacy valid v) x = true ->
     Forall amount_in_range (legacy_unsigned x) /\ Forall balance_in_range (legacy_signed x).
   Proof.
-    unfold c_legacy. rewrite !wf_pair, wf_dep, wf_pair. intros H.
+    unfold c_legacy. intros H. cbn [c_pair c_dep wf] in H.
     apply andb_true_iff in H as [Ht H]. apply andb_true_iff in H as [_ H].
     apply andb_true_iff in H as [_ H]. apply andb_true_iff in H as [Hs H].
     apply andb_true_iff in H as [Hj _]. split.
@@ -334,8 +334,8 @@ Section AmountProofs.
       destruct (fst (snd (snd (snd (snd x))))) as [s|]; [|constructor].
       apply c_opt_wf in Hj as [_ Hj]. apply (wf_sprout _ _ Hj).
     - unfold legacy_signed. destruct (fst (snd (snd (snd x)))) as [s|]; [|constructor].
-      apply c_opt_wf in Hs as [_ Hs]. rewrite wf_refine in Hs. apply andb_true_iff in Hs as [Hs _].
-      unfold c_sapling4_raw in Hs. rewrite wf_pair in Hs. apply andb_true_iff in Hs as [Hs _].
+      apply c_opt_wf in Hs as [_ Hs]. cbn [c_pair c_dep c_refine c_vec wf] in Hs. apply andb_true_iff in Hs as [Hs _].
+      unfold c_sapling4_raw in Hs. cbn [c_pair c_dep c_refine c_vec wf] in Hs. apply andb_true_iff in Hs as [Hs _].
       constructor; [apply wf_balance; exact Hs | constructor].
   Qed.
 
@@ -343,16 +343,16 @@ Section AmountProofs.
     wf (c_tx valid) t = true ->
     Forall amount_in_range (tx_unsigned_amounts t) /\ Forall balance_in_range (tx_signed_amounts t).
   Proof.
-    unfold c_tx. rewrite wf_dep. intros H. apply andb_true_iff in H as [_ H].
+    unfold c_tx. cbn [c_pair c_dep c_refine c_vec wf]. intros H. apply andb_true_iff in H as [_ H].
     unfold tx_unsigned_amounts, tx_signed_amounts.
     destruct t as [v body]. cbn [fst snd] in *.
     destruct v; cbn [c_body] in H; destruct body as [x|[x|x]]; cbn [c_inl c_inr wf] in H; try discriminate.
     1-3: apply (wf_legacy _ _ H).
-    - unfold c_v5 in H. rewrite wf_dep, !wf_pair in H.
+    - unfold c_v5 in H. cbn [c_pair c_dep c_refine c_vec wf] in H.
       apply andb_true_iff in H as [_ H]. apply andb_true_iff in H as [Ht H].
       apply andb_true_iff in H as [Hs Ho]. split; [apply wf_transparent; exact Ht|].
       apply Forall_app. split; [apply (wf_sap5 _ Hs) | apply (wf_orch _ _ Ho)].
-    - unfold c_v6 in H. rewrite wf_dep, !wf_pair in H.
+    - unfold c_v6 in H. cbn [c_pair c_dep c_refine c_vec wf] in H.
       apply andb_true_iff in H as [_ H]. apply andb_true_iff in H as [Ht H].
       apply andb_true_iff in H as [Hs H]. apply andb_true_iff in H as [Ho Hi].
       split; [apply wf_transparent; exact Ht|].
@@ -396,7 +396,7 @@ Lemma header_fixed_part : forall h,
   exists fixed, length fixed = 140%nat /\
     enc c_header h = fixed ++ enc (c_bytevec MX) (snd (snd (snd (snd (snd (snd (snd h))))))).
 Proof.
-  intros [v [p [m [f [t [bi [n s]]]]]]] H. unfold c_header in H. rewrite !wf_pair in H. cbn [fst snd] in *.
+  intros [v [p [m [f [t [bi [n s]]]]]]] H. unfold c_header in H. cbn [c_pair c_dep c_refine c_vec wf] in H. cbn [fst snd] in *.
   repeat match type of H with (_ && _ = true) => let A := fresh "W" in apply andb_true_iff in H as [A H] end.
   cbn [c_fixed wf] in *. repeat match goal with W : Nat.eqb _ _ = true |- _ => apply Nat.eqb_eq in W end.
   exists (le 4 v ++ p ++ m ++ f ++ le 4 t ++ le 4 bi ++ n). split.
@@ -447,7 +447,7 @@ Section Presence.
 
   (** v5 Sapling: valueBalance and binding signature iff spends or outputs; anchor iff spends;
       one spend proof and one spend signature per spend, one output proof per output *)
-  Lemma sapling5_presence (s : ty (c_sapling5 valid)) :
+  Lemma sapling5_presence (s : sapling5_t) :
     wf (c_sapling5 valid) s = true ->
     let ss := fst (fst s) in let os := snd (fst s) in
     let vb := fst (snd s) in let anchor := fst (snd (snd s)) in
@@ -457,8 +457,8 @@ Section Presence.
     (bsig = None <-> ss = [] /\ os = []) /\
     length sproofs = length ss /\ length ssigs = length ss /\ length oproofs = length os.
   Proof.
-    unfold c_sapling5. rewrite wf_dep. intros H. apply andb_true_iff in H as [_ H]. cbv zeta in H.
-    rewrite !wf_pair in H.
+    unfold c_sapling5. cbn [c_pair c_dep c_refine c_vec wf]. intros H. apply andb_true_iff in H as [_ H]. cbv zeta in H.
+    cbn [c_pair c_dep c_refine c_vec wf] in H.
     repeat match type of H with (_ && _ = true) => let X := fresh "P" in apply andb_true_iff in H as [X H] end.
     cbv zeta.
     apply c_opt_none_iff in P. apply c_opt_none_iff in P0. apply c_opt_none_iff in H.
@@ -469,36 +469,36 @@ Section Presence.
 
   (** Orchard-shaped bundle: flags, valueBalance, anchor, proof and signatures iff there is an
       action (and then the pool exists under the branch); one spend-auth signature per action *)
-  Lemma orchard_presence bv (o : ty (c_orchard valid bv)) :
+  Lemma orchard_presence bv (o : orchard_t) :
     wf (c_orchard valid bv) o = true ->
     (snd o = None <-> fst o = []) /\
     (forall r, snd o = Some r -> bv <> None /\ length (fst (snd (snd (snd (snd r))))) = length (fst o)).
   Proof.
-    unfold c_orchard. rewrite wf_dep. intros H. apply andb_true_iff in H as [_ H]. split.
+    unfold c_orchard. cbn [c_pair c_dep c_refine c_vec wf]. intros H. apply andb_true_iff in H as [_ H]. split.
     - apply c_opt_none_iff in H. rewrite negb_false_iff, is_nil_iff in H. exact H.
     - intros r E. rewrite E in H. apply c_opt_wf in H as [_ H]. destruct bv as [v|]; [|discriminate].
-      split; [discriminate|]. unfold c_orchard_rest in H. rewrite !wf_pair in H.
+      split; [discriminate|]. unfold c_orchard_rest in H. cbn [c_pair c_dep c_refine c_vec wf] in H.
       repeat match type of H with (_ && _ = true) => let X := fresh "P" in apply andb_true_iff in H as [X H] end.
       apply wf_rep_length in P3. exact P3.
   Qed.
 
   (** v1-v4: the Sapling binding signature iff there are Sapling spends or outputs; the JoinSplit
       public key and signature iff there are JoinSplits; optional parts follow the version *)
-  Lemma legacy_presence v (x : ty (c_legacy valid v)) :
+  Lemma legacy_presence v (x : legacy_t) :
     wf (c_legacy valid v) x = true ->
     let expiry := fst (snd (snd x)) in let sap := fst (snd (snd (snd x))) in
     let spr := fst (snd (snd (snd (snd x)))) in let bsig := snd (snd (snd (snd (snd x)))) in
     (expiry = None <-> has_overwinter v = false) /\ (sap = None <-> has_sapling v = false) /\
     (spr = None <-> has_sprout v = false) /\
-    (bsig = None <-> sap4_nonempty valid sap = false) /\
+    (bsig = None <-> sap4_nonempty sap = false) /\
     (forall js, spr = Some js -> (snd js = None <-> fst js = [])).
   Proof.
-    unfold c_legacy. rewrite !wf_pair, wf_dep, wf_pair. intros H.
+    unfold c_legacy. cbn [c_pair c_dep c_refine c_vec wf]. intros H.
     repeat match type of H with (_ && _ = true) => let X := fresh "P" in apply andb_true_iff in H as [X H] end.
     cbv zeta. apply c_opt_none_iff in P1. apply c_opt_none_iff in P2. pose proof P3 as P3'.
     apply c_opt_none_iff in P3. apply c_opt_none_iff in H.
-    repeat split; try tauto.
-    intros j E. rewrite E in P3'. apply c_opt_wf in P3' as [_ W]. unfold c_sprout in W. rewrite wf_dep in W.
+    split; [tauto|]. split; [tauto|]. split; [tauto|]. split; [tauto|].
+    intros js E. rewrite E in P3'. apply c_opt_wf in P3' as [_ W]. unfold c_sprout in W. cbn [c_pair c_dep c_refine c_vec wf] in W.
     apply andb_true_iff in W as [_ W]. apply c_opt_none_iff in W. rewrite negb_false_iff, is_nil_iff in W. exact W.
   Qed.
 End Presence.
